@@ -594,3 +594,13 @@ def wrapper_summary(prog, callee, pats):
         _WBUSY.discard(key)
     _WSUMM[key] = out
     return out
+
+
+def closure_ctx(prog, ctx, operand):
+    """Ctx of the closure body an operand holds (a closure literal), else None"""
+    for o in ctx.origins.of_operand(operand):
+        if o.kind == "agg" and o.extra is not None and hasattr(o.extra, "rv") and o.extra.rv.j.get("ak") == "closure":
+            cb = prog.body(o.extra.rv.j.get("def"))
+            if cb is not None:
+                return ctx_of(prog, cb.path)
+    return None
